@@ -337,3 +337,44 @@ Proof.
     cbn in Hl. rewrite Nat.add_0_r in Hl. exact Hl.
   - exfalso. apply Ht; [cbn; rewrite Nat.sub_0_r; exact Hf | reflexivity].
 Qed.
+
+Section Named.
+  Variable P : Type.
+  Variable TT : Type.
+  Variable probe : TT -> N -> option move.
+  Variable mk : P -> move -> P.
+  Variable legalAt : P -> list move.
+  Variable zh hh : P -> N.
+  Variable dtm : P -> Z -> option Z.
+  Variable hmcOf : P -> Z.
+  Variable wtmOf : P -> bool.
+  Variable root : P.
+  Variable cfg : config.
+  Notation iterativeDeepening := (iterativeDeepening P TT probe mk legalAt zh hh dtm hmcOf wtmOf root cfg).
+
+  Theorem lines_playable : forall legal sm limited tbWin prog bad ord strength rnd0 s b reps,
+    legalAt root = legal -> NoDup legal -> startMoves legal sm <> [] ->
+    iterativeDeepening (startMoves legal sm) legal limited tbWin prog bad ord strength rnd0 s = IdAnswer b reps ->
+    forall rep l, In rep reps -> In l rep ->
+      l_pv l <> [] /\ playableFrom P mk legalAt root (l_pv l) /\
+      In (firstMove l) (startMoves legal sm) /\ 0 < l_depth l.
+  Proof.
+    intros legal sm limited tbWin prog bad ord strength rnd0 s b reps Hleg Hnd Hne H rep l Hrep Hl.
+    destruct (reports_ok P TT probe mk legalAt zh hh dtm hmcOf wtmOf root cfg legal sm limited tbWin prog bad ord
+                strength rnd0 s b reps Hleg Hnd Hne H rep Hrep) as [A _].
+    apply A; assumption.
+  Qed.
+
+  Theorem multipv_distinct : forall legal sm limited tbWin prog bad ord strength rnd0 s b reps,
+    legalAt root = legal -> NoDup legal -> startMoves legal sm <> [] ->
+    iterativeDeepening (startMoves legal sm) legal limited tbWin prog bad ord strength rnd0 s = IdAnswer b reps ->
+    forall rep, In rep reps ->
+      NoDup (map firstMove rep) /\
+      (NoDup (map l_multipv rep) \/ Forall (fun l => l_multipv l = -1) rep).
+  Proof.
+    intros legal sm limited tbWin prog bad ord strength rnd0 s b reps Hleg Hnd Hne H rep Hrep.
+    destruct (reports_ok P TT probe mk legalAt zh hh dtm hmcOf wtmOf root cfg legal sm limited tbWin prog bad ord
+                strength rnd0 s b reps Hleg Hnd Hne H rep Hrep) as [_ B].
+    exact B.
+  Qed.
+End Named.
